@@ -81,7 +81,8 @@ class Runner:
                 env2 = self.Env()
                 o2 = observe(lambda: self.it.interpret(wrapped, "c13", env2), BUDGET)
                 ctx.count("catchability_checks")
-                if not (o2.kind == "value" and getattr(o2.value, "value", None) == "caught-by-catch-all"):
+                # (a value other than the marker is fine too: unseeded random functions may simply succeed this time)
+                if o2.kind != "value":
                     site = core.innermost_ckl_frame(o2.exc) if o2.exc is not None else ("?", "?")
                     ctx.violation("C13:%s:not-catchable:%s" % (callee, site[0]),
                                   "%s -> %s %s (the runtime error of the bare form is not intercepted by catch all)" % (
